@@ -178,6 +178,10 @@ impl Vm {
         if self.fiber == self.main_fiber {
           Some(ExecutionSignal::Exit)
         } else {
+          // the channels this fiber used are forgotten when it completes so every fiber
+          // parked on one of them that can proceed has to be queued now
+          self.queue_runnable_fibers();
+
           // attempt to grab waiter and enqueue next fiber
           if let Some(waiter) = self.fiber.complete() {
             self.queue_blocked_fiber(waiter);
@@ -192,6 +196,14 @@ impl Vm {
   }
 
   /// Queue a blocked fiber
+  /// Queue every parked fiber that one of the channels the current fiber used can now serve.
+  /// A fiber that parks or completes may be the only one that still knows those channels
+  pub(super) fn queue_runnable_fibers(&mut self) {
+    while let Some(waiter) = self.fiber.get_runnable() {
+      self.queue_blocked_fiber(waiter);
+    }
+  }
+
   pub(super) fn queue_blocked_fiber(&mut self, mut waiter: Ref<ChannelWaiter>) {
     match waiter.get_waiter_mut::<Ref<Fiber>>() {
       Some(fiber) => {
